@@ -197,3 +197,76 @@ func (e *env) sharedDiff() string {
 	}
 	return strings.Join(out, ", ")
 }
+
+// resetGlobals puts every package-level variable of the generated package back to the value it had when the
+// process started (shallow: scalars, arrays, strings, slice headers, pointers; maps are emptied and refilled with
+// their initial entries). Every execution - the solo references and the concurrent run - then starts from one
+// and the same state: without this a request that leaves its bytes in a package-level scratch variable is invisible
+// to the shared-state hash whenever its own solo reference run has already left the very same bytes there.
+// Variables that hold funcs (hooks the harness installs) or locks, pools and atomics are left alone.
+func (p *Pkg) resetGlobals() {
+	if p.globalInit == nil {
+		p.globalInit = map[string]reflect.Value{}
+		for n, g := range p.Globals {
+			v := reflect.ValueOf(g).Elem()
+			if !resettable(v.Type(), 0) {
+				continue
+			}
+			c := reflect.New(v.Type()).Elem()
+			if v.Kind() == reflect.Map && !v.IsNil() {
+				c.Set(reflect.MakeMapWithSize(v.Type(), v.Len()))
+				it := v.MapRange()
+				for it.Next() {
+					c.SetMapIndex(it.Key(), it.Value())
+				}
+				p.globalMaps = append(p.globalMaps, n)
+			} else {
+				c.Set(v)
+			}
+			p.globalInit[n] = c
+		}
+		return
+	}
+	for n, init := range p.globalInit {
+		v := reflect.ValueOf(p.Globals[n]).Elem()
+		if v.Kind() == reflect.Map && !init.IsNil() {
+			if v.IsNil() {
+				continue
+			}
+			for _, k := range v.MapKeys() {
+				v.SetMapIndex(k, reflect.Value{})
+			}
+			it := init.MapRange()
+			for it.Next() {
+				v.SetMapIndex(it.Key(), it.Value())
+			}
+			continue
+		}
+		v.Set(init)
+	}
+}
+
+func resettable(t reflect.Type, d int) bool {
+	if d > 8 {
+		return false
+	}
+	if pp := t.PkgPath(); pp == "sync" || pp == "sync/atomic" {
+		return false
+	}
+	switch t.Kind() {
+	case reflect.Func, reflect.Chan, reflect.UnsafePointer, reflect.Interface:
+		return false
+	case reflect.Struct:
+		for i := 0; i < t.NumField(); i++ {
+			if !t.Field(i).IsExported() && t.PkgPath() != "" && !strings.HasPrefix(t.PkgPath(), "verifsim/gen/") {
+				return false // opaque type of another package
+			}
+			if !resettable(t.Field(i).Type, d+1) {
+				return false
+			}
+		}
+	case reflect.Array:
+		return resettable(t.Elem(), d+1)
+	}
+	return true
+}
